@@ -92,6 +92,14 @@ fn structured_inputs(thorough: bool) -> Vec<String> {
     out.push(to_text(&json!({"mappings": (0..n.min(300)).map(|i| json!({"from": ["CAPSLOCK", "J"], "to": if i % 2 == 0 { "LEFT" } else { "RIGHT" }})).collect::<Vec<_>>()})));
     out.push(to_text(&json!({"mappings": [{"from": "J", "to": "K", "repeat": {"Special": {"keys": std::iter::repeat("F21").take(n).collect::<Vec<_>>(), "delay_ms": n, "interval_ms": n}}}]})));
   }
+  // (ii-c) rows whose letters are as long as / longer than the physical row, with a multi-byte character at every position
+  for (row, len) in [("`", 13usize), ("1", 12), ("Q", 12), ("A", 11), ("Z", 10)] {
+    for total in len.saturating_sub(1)..=len + 3 { for pos in 0..total { for wide in ['\u{df}', '\u{20ac}', '\u{1F600}'] {
+      let letters: String = (0..total).map(|i| if i == pos { wide } else { 'a' }).collect();
+      out.push(to_text(&json!({"mappings": [{"from": {"row": row}, "to": {"letters": letters}}]})));
+      out.push(to_text(&json!({"mappings": [{"from": {"row": row}, "to": {"letters": "a".repeat(total)}, "repeat": {"Special": {"keys": {"letters": letters}, "delay_ms": 1, "interval_ms": 1}}}]})));
+    } } }
+  }
   // (iii) structure-aware mutations of the seeds: all single mutations; thorough: all pairs within one mapping object
   for seed in seeds() {
     let mut ns = vec![]; nodes(&seed, &mut vec![], &mut ns);
